@@ -23,7 +23,7 @@ Section Framing.
     | [] => ([], Exhausted)
     | inl x :: r => let '(l, o) := collect r in (x :: l, o)
     | inr EOFError :: _ => ([], Exhausted)
-    | inr (Py e) :: r => if is_value_error e then collect r else ([], Crashed (Py e))
+    | inr (Py e) :: r => if is_skipped e then collect r else ([], Crashed (Py e))
     | inr e :: _ => ([], Crashed e)
     end.
 
@@ -39,10 +39,11 @@ Section Framing.
     | l :: r => mend r (S k) (match m with Some _ => m | None => if startswith (L "M  END") l then Some (S k) else None end)
     end.
 
-  (* the result of one record, a function of the lines of this record alone *)
-  Definition sdf_one (rec : list str) : record_result :=
+  (* the result of one record, a function of the lines of this record alone (and of whether a delimiter line ended it:
+     an empty record before a delimiter is an invalid record, an empty tail of the file is the end of the file) *)
+  Definition sdf_one (delimited : bool) (rec : list str) : record_result :=
     match rec with
-    | [] => inr EOFError
+    | [] => if delimited then inr (Py ValueError) else inr EOFError
     | _ => match mend rec 0 None with
            | None => inr (Py ValueError)
            | Some k => match dispatch_mol A build_mol (firstn k rec) with
@@ -54,7 +55,7 @@ Section Framing.
 
   Lemma sdf_block_record rec : forall n buf m d rest,
     Forall (fun l => is_delim l = false) rec -> is_delim d = true -> (n + length rec <= buffer_size)%nat ->
-    sdf_block buffer_size (rec ++ d :: rest) n buf m = (Some (buf ++ rec, mend rec (length buf) m), rest).
+    sdf_block buffer_size (rec ++ d :: rest) n buf m = (Some (buf ++ rec, mend rec (length buf) m, true), rest).
   Proof.
     induction rec as [|l rec IH]; intros n buf m d rest Hr Hd Hn.
     - cbn [app sdf_block mend]. unfold is_delim in Hd. rewrite Hd. rewrite app_nil_r. reflexivity.
@@ -66,7 +67,7 @@ Section Framing.
   (* the last record of a file may lack its delimiter *)
   Lemma sdf_block_eof rec : forall n buf m,
     Forall (fun l => is_delim l = false) rec -> (n + length rec <= buffer_size)%nat ->
-    sdf_block buffer_size rec n buf m = (Some (buf ++ rec, mend rec (length buf) m), []).
+    sdf_block buffer_size rec n buf m = (Some (buf ++ rec, mend rec (length buf) m, false), []).
   Proof.
     induction rec as [|l rec IH]; intros n buf m Hr Hn.
     - cbn [sdf_block mend]. rewrite app_nil_r. reflexivity.
@@ -81,7 +82,7 @@ Section Framing.
 
   Lemma sdf_structure_record rec d rest :
     sdf_record_ok rec -> is_delim d = true ->
-    sdf_read_structure A build_mol buffer_size (rec ++ d :: rest) = (sdf_one rec, rest).
+    sdf_read_structure A build_mol buffer_size (rec ++ d :: rest) = (sdf_one true rec, rest).
   Proof.
     intros [Hr Hn] Hd. unfold sdf_read_structure. rewrite sdf_block_record by (try assumption; lia).
     cbn [app length]. unfold sdf_one. destruct rec as [|l rec]; [reflexivity|].
@@ -90,7 +91,7 @@ Section Framing.
   Qed.
   Lemma sdf_structure_eof rec :
     sdf_record_ok rec ->
-    sdf_read_structure A build_mol buffer_size rec = (sdf_one rec, []).
+    sdf_read_structure A build_mol buffer_size rec = (sdf_one false rec, []).
   Proof.
     intros [Hr Hn]. unfold sdf_read_structure. rewrite sdf_block_eof by (try assumption; lia).
     cbn [app length]. unfold sdf_one. destruct rec as [|l rec]; [reflexivity|].
@@ -98,89 +99,101 @@ Section Framing.
     destruct (dispatch_mol A build_mol (firstn k (l :: rec))); reflexivity.
   Qed.
 
-  (* a file: records with their delimiter lines, then possibly a last record without delimiter *)
+  Lemma sdf_one_not_eof b rec : (b = true \/ rec <> []) -> sdf_one b rec <> inr EOFError.
+  Proof.
+    intros H. unfold sdf_one. destruct rec as [|l rec].
+    - destruct H as [-> | H]; [discriminate | contradiction].
+    - destruct (mend (l :: rec) 0 None); [|discriminate]. destruct (dispatch_mol A build_mol (firstn n (l :: rec))); discriminate.
+  Qed.
+
+  (* a file: records (possibly EMPTY ones) with their delimiter lines, then possibly a last record without delimiter *)
   Definition sdf_file (recs : list (list str * str)) (last : list str) : list str :=
     concat (map (fun rd => fst rd ++ [snd rd]) recs) ++ last.
+  Definition sdf_results (recs : list (list str * str)) (last : list str) : list record_result :=
+    map (sdf_one true) (map fst recs) ++ [sdf_one false last].
 
   Lemma sdf_iter_file recs : forall fuel last,
-    Forall (fun rd => sdf_record_ok (fst rd) /\ fst rd <> [] /\ is_delim (snd rd) = true) recs -> sdf_record_ok last ->
-    (length recs + 1 < fuel)%nat ->
-    sdf_iter A build_mol buffer_size fuel (sdf_file recs last) =
-    collect (map sdf_one (map fst recs ++ [last])).
+    Forall (fun rd => sdf_record_ok (fst rd) /\ is_delim (snd rd) = true) recs -> sdf_record_ok last ->
+    (length recs + (match last with [] => 0 | _ => 1 end) < fuel)%nat ->
+    sdf_iter A build_mol buffer_size fuel (sdf_file recs last) = collect (sdf_results recs last).
   Proof.
     induction recs as [|[rec d] recs IH]; intros fuel last Hrecs Hlast Hf.
-    - unfold sdf_file. cbn [map concat app]. destruct fuel as [|fuel]; [cbn in Hf; lia|].
+    - unfold sdf_file, sdf_results. cbn [map concat app]. destruct fuel as [|fuel]; [lia|].
       cbn [sdf_iter]. rewrite sdf_structure_eof by exact Hlast.
       destruct last as [|l last]; [reflexivity|].
-      destruct (sdf_one (l :: last)) as [x|e] eqn:E.
-      + destruct fuel as [|fuel]; [cbn in Hf; lia|]. cbn [sdf_iter collect].
-        unfold sdf_read_structure. cbn [sdf_block]. reflexivity.
-      + cbn [collect]. destruct e as [e| |]; try reflexivity.
-        destruct (is_value_error e); [|reflexivity].
-        destruct fuel as [|fuel]; [cbn in Hf; lia|]. cbn [sdf_iter]. unfold sdf_read_structure. cbn [sdf_block]. reflexivity.
-    - inversion Hrecs as [|? ? [Hok [Hne Hd]] Hrecs']; subst. cbn [fst snd] in *.
-      destruct fuel as [|fuel]; [cbn in Hf; lia|]. cbn [length] in Hf.
-      unfold sdf_file. cbn [map concat fst snd]. rewrite <- !app_assoc. cbn [app].
+      assert (Hne : sdf_one false (l :: last) <> inr EOFError) by (apply sdf_one_not_eof; right; discriminate).
+      assert (E0 : sdf_iter A build_mol buffer_size fuel [] = ([], Exhausted)).
+      { destruct fuel as [|fuel]; [cbn [length] in Hf; lia|]. reflexivity. }
+      destruct (sdf_one false (l :: last)) as [x|[e| |]]; cbn [collect].
+      + rewrite E0. reflexivity.
+      + destruct (is_skipped e); [exact E0 | reflexivity].
+      + contradiction.
+      + reflexivity.
+    - inversion Hrecs as [|? ? [Hok Hd] Hrecs']; subst. cbn [fst snd] in *.
+      destruct fuel as [|fuel]; [lia|]. cbn [length] in Hf.
+      unfold sdf_file, sdf_results. cbn [map concat fst snd]. rewrite <- !app_assoc. cbn [app].
       cbn [sdf_iter]. rewrite sdf_structure_record by assumption.
-      fold (sdf_file recs last). specialize (IH fuel last Hrecs' Hlast ltac:(lia)).
-      change (map sdf_one (rec :: map fst recs ++ [last])) with (sdf_one rec :: map sdf_one (map fst recs ++ [last])).
-      destruct (sdf_one rec) as [x|e] eqn:E.
-      + rewrite IH. cbn [collect]. reflexivity.
-      + cbn [collect]. destruct e as [e| |].
-        * destruct (is_value_error e); [exact IH | reflexivity].
-        * exfalso. unfold sdf_one in E. destruct rec; [contradiction|].
-          destruct (mend (s :: rec) 0 None); [|discriminate]. destruct (dispatch_mol A build_mol (firstn n (s :: rec))); discriminate.
-        * reflexivity.
+      fold (sdf_file recs last). fold (sdf_results recs last).
+      specialize (IH fuel last Hrecs' Hlast ltac:(lia)).
+      assert (Hne : sdf_one true rec <> inr EOFError) by (apply sdf_one_not_eof; left; reflexivity).
+      destruct (sdf_one true rec) as [x|[e| |]]; cbn [collect].
+      + rewrite IH. reflexivity.
+      + destruct (is_skipped e); [exact IH | reflexivity].
+      + contradiction.
+      + reflexivity.
   Qed.
 
-  Lemma sdf_records_length recs : Forall (fun rd : list str * str => fst rd <> []) recs ->
-    (2 * length recs <= length (concat (map (fun rd : list str * str => fst rd ++ [snd rd]) recs)))%nat.
+  Lemma sdf_records_length (recs : list (list str * str)) :
+    (length recs <= length (concat (map (fun rd : list str * str => fst rd ++ [snd rd]) recs)))%nat.
   Proof.
-    induction 1 as [|[r d] recs Hne _ IH]; cbn [map concat length fst snd] in *; [lia|].
-    rewrite !app_length. cbn [length]. destruct r; [contradiction|]. cbn [length]. lia.
+    induction recs as [|[r d] recs IH]; cbn [map concat length fst snd] in *; [lia|].
+    rewrite !app_length. cbn [length]. lia.
   Qed.
 
-  (* sdf_framing: reading a file yields, record by record, what each record yields on its own lines; a record whose
-     parse raises a ValueError is skipped and the following records are unaffected *)
+  (* sdf_framing: reading a file yields, record by record, what each record yields on its own lines; a record whose parse
+     raises a ValueError or an IndexError - an EMPTY record included - is skipped and the following records are unaffected *)
   Theorem sdf_framing recs last :
-    Forall (fun rd => sdf_record_ok (fst rd) /\ fst rd <> [] /\ is_delim (snd rd) = true) recs -> sdf_record_ok last ->
-    sdf_read A build_mol buffer_size (sdf_file recs last) = collect (map sdf_one (map fst recs ++ [last])).
+    Forall (fun rd => sdf_record_ok (fst rd) /\ is_delim (snd rd) = true) recs -> sdf_record_ok last ->
+    sdf_read A build_mol buffer_size (sdf_file recs last) = collect (sdf_results recs last).
   Proof.
-    intros H1 H2. unfold sdf_read.
-    assert (Hl : (2 * length recs <= length (concat (map (fun rd : list str * str => fst rd ++ [snd rd]) recs)))%nat).
-    { apply sdf_records_length. eapply Forall_impl; [|exact H1]. intros rd [_ [H _]]. exact H. }
-    destruct recs as [|rd recs].
-    - destruct last as [|l last]; [reflexivity|].
-      apply sdf_iter_file; try assumption. unfold sdf_file. cbn [map concat app length]. lia.
-    - apply sdf_iter_file; try assumption. unfold sdf_file. rewrite app_length. cbn [length] in *. lia.
+    intros H1 H2. unfold sdf_read. apply sdf_iter_file; try assumption.
+    pose proof (sdf_records_length recs) as Hl. unfold sdf_file. rewrite app_length.
+    destruct last; cbn [length]; lia.
   Qed.
 
-  (* the readable consequence: when every record either parses or fails with a ValueError (what MDLRead.__iter__ skips),
-     the reader yields exactly the parsable records, in order, and ends normally *)
+  (* the readable consequence: when every record either parses or fails with a ValueError / IndexError (what MDLRead.__iter__
+     skips), the reader yields exactly the parsable records, in order, and ends normally *)
   Definition skippable (r : record_result) : Prop :=
-    match r with inl _ => True | inr (Py e) => is_value_error e = true | inr _ => False end.
+    match r with inl _ => True | inr (Py e) => is_skipped e = true | inr EOFError => True | inr _ => False end.
   Definition successes (rs : list record_result) : list (A * list (str * str)) :=
     flat_map (fun r => match r with inl x => [x] | inr _ => [] end) rs.
-  Lemma collect_skippable rs : Forall skippable rs -> collect rs = (successes rs, Exhausted).
+  Lemma collect_skippable rs : Forall (fun r => skippable r /\ r <> inr EOFError) rs -> collect rs = (successes rs, Exhausted).
   Proof.
-    induction 1 as [|r rs Hr _ IH]; [reflexivity|]. destruct r as [x|[e| |]]; cbn [collect successes flat_map app] in *.
+    induction 1 as [|r rs [Hr Hn] _ IH]; [reflexivity|]. destruct r as [x|[e| |]]; cbn [collect successes flat_map app] in *.
     - rewrite IH. reflexivity.
     - rewrite Hr. exact IH.
     - contradiction.
     - contradiction.
   Qed.
   Corollary sdf_damaged_records_skipped recs last :
-    Forall (fun rd => sdf_record_ok (fst rd) /\ fst rd <> [] /\ is_delim (snd rd) = true) recs -> sdf_record_ok last ->
-    Forall skippable (map sdf_one (map fst recs)) -> last = [] \/ skippable (sdf_one last) ->
-    sdf_read A build_mol buffer_size (sdf_file recs last) = (successes (map sdf_one (map fst recs ++ [last])), Exhausted).
+    Forall (fun rd => sdf_record_ok (fst rd) /\ is_delim (snd rd) = true) recs -> sdf_record_ok last ->
+    Forall skippable (sdf_results recs last) ->
+    sdf_read A build_mol buffer_size (sdf_file recs last) = (successes (sdf_results recs last), Exhausted).
   Proof.
-    intros H1 H2 H3 H4. rewrite sdf_framing by assumption.
-    destruct H4 as [-> | H4].
-    - rewrite map_app. cbn [map sdf_one]. unfold successes. rewrite flat_map_app. cbn [flat_map app]. rewrite app_nil_r.
-      fold (successes (map sdf_one (map fst recs))). rewrite <- collect_skippable by exact H3.
-      clear. induction (map sdf_one (map fst recs)) as [|r rs IH]; [reflexivity|].
-      destruct r as [x|[e| |]]; cbn [app collect]; try reflexivity; [rewrite IH; reflexivity | destruct (is_value_error e); [exact IH | reflexivity]].
-    - apply collect_skippable. rewrite map_app. apply Forall_app. split; [exact H3 | repeat constructor; exact H4].
+    intros H1 H2 H3. rewrite sdf_framing by assumption. unfold sdf_results in *.
+    apply Forall_app in H3. destruct H3 as [H3 H4]. inversion H4 as [|? ? H5 _]; subst.
+    assert (G : forall rs r, Forall (fun r => skippable r /\ r <> inr EOFError) rs -> skippable r ->
+                collect (rs ++ [r]) = (successes (rs ++ [r]), Exhausted)).
+    { intros rs r Hrs Hr. destruct r as [x|[e| |]].
+      - apply collect_skippable. apply Forall_app. split; [exact Hrs | repeat constructor; discriminate].
+      - apply collect_skippable. apply Forall_app. split; [exact Hrs | repeat constructor; [exact Hr | discriminate]].
+      - unfold successes. rewrite flat_map_app. cbn [flat_map app]. rewrite app_nil_r. fold (successes rs).
+        rewrite <- collect_skippable by exact Hrs. clear. induction rs as [|r rs IH]; [reflexivity|].
+        destruct r as [x|[e| |]]; cbn [app collect]; try reflexivity; [rewrite IH; reflexivity | destruct (is_skipped e); [exact IH | reflexivity]].
+      - contradiction. }
+    apply G; [|exact H5].
+    rewrite Forall_forall in *. intros r Hin. split; [apply H3; exact Hin|].
+    apply in_map_iff in Hin. destruct Hin as [rec [<- _]]. apply sdf_one_not_eof. left. reflexivity.
   Qed.
 
   (* ---------------------------------------------------------------------------------------------- *)
@@ -304,7 +317,7 @@ Section Framing.
       cbn [map snd]. pose proof (rdf_one_not_eof body H3) as Hne.
       destruct (rdf_one body) as [x|[e| |]]; cbn [collect].
       + rewrite IH. reflexivity.
-      + destruct (is_value_error e); [exact IH | reflexivity].
+      + destruct (is_skipped e); [exact IH | reflexivity].
       + contradiction.
       + reflexivity.
   Qed.
@@ -343,7 +356,7 @@ Section Framing.
       cbn [map snd]. pose proof (rdf_one_not_eof body H3) as Hne.
       destruct (rdf_one body) as [x|[e| |]]; cbn [collect].
       + rewrite IH. reflexivity.
-      + destruct (is_value_error e); [exact IH | reflexivity].
+      + destruct (is_skipped e); [exact IH | reflexivity].
       + contradiction.
       + reflexivity.
   Qed.
@@ -369,9 +382,9 @@ Section Split.
   Qed.
 
   (* an SDF record = MOL lines (none starts with "M  END"), the "M  END" line, metadata lines *)
-  Theorem sdf_record_split ml e metal :
+  Theorem sdf_record_split b ml e metal :
     Forall (fun l => is_mend l = false) ml -> is_mend e = true ->
-    sdf_one A build_mol (ml ++ e :: metal) =
+    sdf_one A build_mol b (ml ++ e :: metal) =
     match dispatch_mol A build_mol (ml ++ [e]) with
     | Err x => inr (Py x)
     | Ok mol => inl (mol, sdf_read_metadata metal)
@@ -424,25 +437,28 @@ Section Split.
 End Split.
 
 (* ------------------------------------------------------------------------------------------------ *)
-(** * non-vacuity: a three-record SDF file whose middle record is damaged (its counts line is garbage); the builder
+(** * non-vacuity: an SDF file with five records, the middle three damaged (garbage counts line; empty; truncated); the builder
       returns the title of the parsed molecule *)
 Definition ex_rec (title : string) (counts : string) : list str :=
   map add_nl [L title; []; []; L counts; L "    0.0000    0.0000    0.0000 C   0  0  0  0  0  0  0  0  0  0  0  0"; L "M  END"; L ">  <k>"; L "v"; []].
 Definition ex_good := "  1  0  0  0  0  0            999 V2000"%string.
 Definition ex_recs : list (list str * str) :=
-  [(ex_rec "a" ex_good, add_nl (L "$$$$")); (ex_rec "b" "  x  0  0  0  0  0            999 V2000", add_nl (L "$$$$")); (ex_rec "c" ex_good, add_nl (L "$$$$"))].
+  [(ex_rec "a" ex_good, add_nl (L "$$$$")); (ex_rec "b" "  x  0  0  0  0  0            999 V2000", add_nl (L "$$$$"));
+   ([], add_nl (L "$$$$"));                                             (* an empty record *)
+   (map add_nl [L "t"; L "M  END"], add_nl (L "$$$$"));                 (* a record truncated to two lines: IndexError *)
+   (ex_rec "c" ex_good, add_nl (L "$$$$"))].
 Definition ex_build (p : parsed3) : pyres (option str) := Ok (p_title (p3 p)).
 Definition ex_build_rxn (r : rparsed) : pyres (option str) := Ok (r_title r).
 
 Example sdf_framing_example :
-  Forall (fun rd => sdf_record_ok 100 (fst rd) /\ fst rd <> [] /\ is_delim (snd rd) = true) ex_recs /\
+  Forall (fun rd => sdf_record_ok 100 (fst rd) /\ is_delim (snd rd) = true) ex_recs /\
   sdf_record_ok 100 [] /\
-  map (sdf_one (option str) ex_build) (map fst ex_recs) =
-    [inl (Some (L "a"), [(L "k", L "v")]); inr (Py ValueError); inl (Some (L "c"), [(L "k", L "v")])] /\
+  sdf_results (option str) ex_build ex_recs [] =
+    [inl (Some (L "a"), [(L "k", L "v")]); inr (Py ValueError); inr (Py ValueError); inr (Py IndexError); inl (Some (L "c"), [(L "k", L "v")]); inr EOFError] /\
   sdf_read (option str) ex_build 100 (sdf_file ex_recs []) = ([(Some (L "a"), [(L "k", L "v")]); (Some (L "c"), [(L "k", L "v")])], Exhausted).
 Proof.
   split; [|split; [|split]].
-  - repeat constructor; try discriminate; cbn; lia.
+  - repeat constructor; cbn; lia.
   - split; [constructor | cbn; lia].
   - vm_compute. reflexivity.
   - vm_compute. reflexivity.
